@@ -162,6 +162,25 @@ def collection_docs():
                         yield '- &s [q]\n- %s [%s]\n' % (tag, ', '.join(ENTRY[e].replace('%s', k) for e, k in zip(es, ks)))
 
 
+def list_reuse_docs():
+    """an anchored merge LIST (and an anchored merge mapping) that several consumers merge through an alias: every reuse
+    must give the same precedence as the first use"""
+    srcs = [('{a: 1, b: 1}', '{a: 2, c: 2}', '{b: 3, c: 3, d: 3}'), ('{a: 1}', '{a: 2}', '{a: 3}'), ('{a: 1, <<: {z: 0}}', '{b: 2, a: 9}', '{}')]
+    owns = ['', ', a: own', ', d: own']
+    for sa, sb, sc in srcs:
+        head = '- &A %s\n- &B %s\n- &C %s\n' % (sa, sb, sc)
+        for lst in itertools.chain(itertools.permutations(['*A', '*B', '*C'], 2), itertools.permutations(['*A', '*B', '*C'], 3), [('*A', '*A'), ('*B', '{a: inline}')]):
+            for o1 in owns:
+                for uses in (1, 2, 3):
+                    for o2 in owns:
+                        body = '- {<<: &L [%s]%s}\n' % (', '.join(lst), o1)
+                        body += ''.join('- {<<: *L%s}\n' % o2 for _ in range(uses))
+                        yield head + body + '- *L\n- *A\n'
+                        yield head + '- &L [%s]\n' % ', '.join(lst) + ''.join('- {<<: *L%s}\n' % o2 for _ in range(uses + 1)) + '- *L\n'
+        for o2 in owns:
+            yield head + '- {<<: &M {<<: [*A, *B], e: 5}}\n' + ('- {<<: *M%s}\n' % o2) * 3 + '- *M\n'
+
+
 def plan(tier, seed):
     q = tier == 'quick'
     jobs = []
@@ -178,6 +197,7 @@ def plan(tier, seed):
             jobs.append(('merge3', i1, i2, i3, first, None))
     jobs += [('coll', k, 32) for k in range(32)]
     jobs.append(('extra',))
+    jobs += [('listreuse', k, 4) for k in range(4)]
     return jobs
 
 
@@ -219,6 +239,13 @@ def run_job(job, T):
             check_doc(T, 'collections', text, loaders + FULL)
             T.nontrivial += 1
         T.sample('collections', {'doc': text})
+    elif kind == 'listreuse':
+        text = None
+        for i, text in enumerate(list_reuse_docs()):
+            if i % job[2] == job[1]:
+                check_doc(T, 'merge-list-reuse', text, loaders)
+                T.nontrivial += 1
+        T.sample('merge-list-reuse', {'doc': text})
     elif kind == 'extra':
         for text in EXTRA:
             check_doc(T, 'hand', text, loaders + FULL)
